@@ -242,8 +242,10 @@ func (l *Lexer) shiftRawText() []byte {
 						l.r.Move(1)
 					}
 					if h := ToHash(parse.ToLower(parse.Copy(l.r.Lexeme()[mark+2:]))); h == l.rawTag { // copy so that ToLower doesn't change the case of the underlying slice
-						l.r.Rewind(mark)
-						return l.r.Shift()
+						if c == ' ' || c == '>' || c == '/' || c == '\t' || c == '\n' || c == '\r' || c == '\f' || c == 0 && l.r.Err() != nil { // e.g. </title-x> is not an end tag
+							l.r.Rewind(mark)
+							return l.r.Shift()
+						}
 					}
 				} else if l.rawTag == Script && l.r.Peek(1) == '!' && l.r.Peek(2) == '-' && l.r.Peek(3) == '-' {
 					l.r.Move(4)
